@@ -5,7 +5,7 @@ caches, symbol table with lazily evaluated symbols), so no state merging is atte
 load / transpile / unload / submit operations over a pool of modules that share entry paths and local names
 is executed up to the depth bound; a common prefix is shared by fork(). Oracle: every transpile inside a
 history is byte-equal to the transpile of a fresh process; after unload nothing of the module remains;
-no exception appears that the fresh baseline does not raise. Configurations: PYTHONHASHSEED in {0, 1, 7}.
+no exception appears that the fresh baseline does not raise. Configurations: PYTHONHASHSEED in {0, 1, 5, 7, 9}.
 """
 import json
 import os
@@ -68,7 +68,28 @@ def make2(n: int) -> Top:
 
 COUNT2: str = 's'
 '''
-M3 = '''class Item:
+M3 = '''from typing import Generic, TypeVar
+
+T_Key = TypeVar('T_Key')
+T_Value = TypeVar('T_Value')
+T_Extra = TypeVar('T_Extra')
+T_Zed = TypeVar('T_Zed')
+
+def pair_up(k: T_Key, v: T_Value, e: T_Extra, z: T_Zed) -> dict[T_Key, T_Value]:
+	return {k: v}
+
+class Slot(Generic[T_Key, T_Value, T_Extra]):
+	key: T_Key
+	value: T_Value
+
+	def __init__(self, key: T_Key, value: T_Value) -> None:
+		self.key = key
+		self.value = value
+
+	def swap(self, e: T_Extra, z: T_Zed) -> T_Zed:
+		return z
+
+class Item:
 	n: str
 
 	def __init__(self, n: str) -> None:
@@ -109,7 +130,19 @@ def alphabet():
     for v in MAIN_V:
         ops.append(('submit', v))
     ops.append(('transpile', '__main__'))
+    ops.append(('foreign', 'cvars'))
     return ops
+
+
+FOREIGN_ENV = {'cvars': {'Item': 'CSP', 'Holder': 'CP'}}
+
+
+def foreign_transpile():
+    """Another session of the same process with another (legitimate) transpiler configuration: class names of the pool
+    registered as C++ variable types through env.transpiler.cvars."""
+    from mc.tranp.session import Session
+    fs = Session({'__main__': MAIN_V['v0']}, cache=True, transpiler_env=FOREIGN_ENV)
+    return fs.transpile('c04pool.m0')
 
 
 def write_pool():
@@ -142,6 +175,7 @@ def baselines():
     for m in MODS:
         s = Session({'__main__': MAIN_V['v0']}, cache=False)
         out[m] = s.transpile(m)
+    out['foreign:cvars'] = Session({'__main__': MAIN_V['v0']}, cache=False, transpiler_env=FOREIGN_ENV).transpile('c04pool.m0')
     for v, src in MAIN_V.items():
         s = Session({'__main__': src}, cache=False)
         try:
@@ -177,6 +211,10 @@ def apply(state, op, base):
         elif kind == 'submit':
             state['main'] = arg
             s.submit('__main__', MAIN_V[arg])
+        elif kind == 'foreign':
+            got = foreign_transpile()
+            if got != base['foreign:cvars']:
+                viol.append((['output-depends-on-history', 'foreign-session'], 'a second session with env.transpiler.cvars transpiles c04pool.m0 differently from a fresh process with that configuration'))
         elif kind == 'transpile':
             got = s.transpile(arg)
             key = arg if arg != '__main__' else f'__main__:{state["main"]}'
@@ -211,6 +249,8 @@ def explore(state, hist, depth, base, out_path, counters):
         if pid == 0:
             code = 0
             try:
+                from mc.tranp.session import adopt_workdir
+                adopt_workdir()
                 viol = apply(state, op, base)
                 with open(out_path, 'a') as f:
                     f.write(json.dumps({'t': 1, 'viol': [[sig, what, {'history': hist + [list(op)]}] for sig, what in viol]}) + '\n')
@@ -249,7 +289,7 @@ def seed_baselines():
             'from mc.props import c04\nprint(json.dumps(c04.baselines()))\n') % VERIF
     outs = {}
     procs = {}
-    for seed in ('0', '1', '7'):
+    for seed in ('0', '1', '5', '7', '9'):
         env = dict(os.environ, PYTHONHASHSEED=seed, PYTHONPATH=os.pathsep.join([COMPAT, REPO, VERIF]), PYTHONDONTWRITEBYTECODE='1')
         procs[seed] = subprocess.Popen([sys.executable, '-c', code], stdout=subprocess.PIPE, stderr=subprocess.PIPE, text=True, env=env)
     for seed, pr in procs.items():
@@ -347,7 +387,7 @@ def run(ctx):
         'traces_validated_against_impl': transitions,
         'samples': samples,
         'max_depth': depth,
-        'bound': f'all operation sequences of length <= {depth} over {len(ops)} operations (load/transpile/unload x {MODS}, submit x {list(MAIN_V)}, transpile __main__); sequences are cut at the first violating operation; hash seeds 0/1/7 for the baselines; CLI layer: all {n_orders // 2} orders of listing the targets (pool modules{" without m3" if ctx.quick else ""} + m4, a second importer of m0 and m1) in config.yml, each on a fresh workspace and after a run in reverse order ({n_orders} forced CLI runs), outputs byte-equal',
+        'bound': f'all operation sequences of length <= {depth} over {len(ops)} operations (load/transpile/unload x {MODS}, submit x {list(MAIN_V)}, transpile __main__, a foreign session with env.transpiler.cvars={FOREIGN_ENV["cvars"]} transpiling m0); sequences are cut at the first violating operation; hash seeds 0/1/5/7/9 for the baselines; CLI layer: all {n_orders // 2} orders of listing the targets (pool modules{" without m3" if ctx.quick else ""} + m4, a second importer of m0 and m1) in config.yml, each on a fresh workspace and after a run in reverse order ({n_orders} forced CLI runs), outputs byte-equal',
         'exhaustive': True,
         'states_note': 'stateless exploration: every history is its own state (no merging, see DESIGN 1)',
         'alphabet': [list(o) for o in ops],
